@@ -481,6 +481,7 @@ int main(int argc, char **argv) {
                     std::string name = k.next(); auto it = recipes().find(name);
                     if (it == recipes().end()) { printf("skip unknown-recipe %s\n", name.c_str()); break; }
                     print_digest("pre", digest(g)); print_digest("twin", digest(h)); fflush(stdout);
+                    printf("callbegin\n"); fflush(stdout);
                     guarded("x", [&]() { it->second(g); });
                     print_digest("post", digest(g)); fflush(stdout);
                 }
